@@ -122,6 +122,9 @@ func BuildMessage(spec MsgSpec, from, to string, seed int64) *fbb.Message {
 			name = fmt.Sprintf("vedlegg-æø%d.bin", i)
 		}
 		m.AddFile(fbb.NewFile(name, data))
+		if i == 0 && spec.Att >= 2 && rng.Intn(2) == 0 {
+			m.AddFile(fbb.NewFile(name, data)) // the same attachment twice (same name, same size) is two attachments
+		}
 	}
 	return m
 }
